@@ -2,6 +2,9 @@ package srvlab
 
 import (
 	"fmt"
+	"io"
+	"log"
+	"os"
 	"strings"
 	"time"
 
@@ -446,6 +449,12 @@ func runRandomHist(prop string, seed int64, idx, steps int) core.Result {
 	var res core.Result
 	r := core.NewRand(seed, fmt.Sprintf("hist/%s/%d", prop, idx))
 	cfg := Config{Dotu: r.Bool(), Msize: 8192, Auth: r.Intn(3) == 0, ProcOps: r.Intn(4) == 0}
+	if r.Intn(6) == 0 {
+		// every debug facility of the server on (messages formatted, printed to a discarded log, kept in the ring)
+		cfg.Debug = 15
+		log.SetOutput(io.Discard)
+		defer log.SetOutput(os.Stderr)
+	}
 	nconn := 1 + r.Intn(3)
 	h := NewHist(cfg, nconn, &res, prop)
 	if !h.Negotiate([]uint32{128, 256, 4096}[r.Intn(3)]) {
